@@ -5,6 +5,7 @@ CONSTANTS
   MaxBatchesPerRun = 2
   KeyIncludesConfig = TRUE
   AtomicWrite = FALSE
+  BatchKey <- IdKey
   TolerantLoad = FALSE
 SPECIFICATION Spec
 INVARIANT CacheTransparent
